@@ -45,7 +45,7 @@ REQUIRED_PROBES = {"quick": ["observer_before_last_mutation", "raw_value_object_
                              "caseless_duplicate_name", "permutation_moved_something", "amz_in_history",
                              "amz_added_two_or_more", "subtree_from_ical", "zoned_dateutil", "zoned_pytz",
                              "zoned_zoneinfo", "list_valued_parameter", "setter_barrier", "noise_parse", "noise_serialise",
-                             "mixed_zone_list", "params_mutated_in_place", "property_deleted"]}
+                             "mixed_zone_list", "params_mutated_in_place", "property_deleted", "value_payload_mutated_in_place"]}
 REQUIRED_PROBES["thorough"] = REQUIRED_PROBES["quick"]
 
 KINDS = ["VEVENT", "VTODO", "VJOURNAL", "VFREEBUSY", "VTIMEZONE", "VALARM", "X-COMP"]
@@ -267,7 +267,9 @@ def generate(rng, cfg):
             if cands:
                 c = rng.choice(cands)
                 U = rng.choice(sorted(names_used[c]))
-                if rng.random() < 0.6:
+                if rng.random() < 0.3:
+                    trace.append([0, "mutate_value", {"comp": c, "name": U}])
+                elif rng.random() < 0.6:
                     trace.append([0, "mutate_params", {"comp": c, "name": U, "param": f"X-MUT{len(trace)}",
                                                        "v": f"v{len(trace)}",
                                                        "how": rng.choice(["set", "set", "pop", "append-list", "pop-last"])}])
@@ -346,7 +348,7 @@ def abstract_sig(run):
 # ---------------------------------------------------------------------------
 # permutations of the insertion history
 
-BARRIERS = ("setattr", "amz", "from_ical", "mutate_params", "del_prop")
+BARRIERS = ("setattr", "amz", "from_ical", "mutate_params", "del_prop", "mutate_value")
 
 
 def permute(trace, seed):
@@ -567,6 +569,34 @@ def run_variant(trace, res, with_observers, tag, stepbase=0, checks=True):
                     B.mutated.append(a["param"])
                 if checks:
                     res.probe("params_mutated_in_place")
+            elif op == "mutate_value":
+                # edit the payload of a stored value in place (public attributes of the value objects)
+                comp = B.objs.get(a["comp"])
+                m = B.model.get(a["comp"])
+                if comp is None or a["name"] not in m["names"]:
+                    res.skipped += 1
+                    continue
+                value = comp[a["name"]]
+                if isinstance(value, list):
+                    value = value[0]
+                from datetime import date as _date, timedelta as _td
+                tname = type(value).__name__
+                if tname == "vDDDLists" and value.dts:
+                    value.dts.append(P.vDDDTypes(value.dts[0].dt))
+                elif tname == "vDDDTypes" and isinstance(value.dt, _date):
+                    value.dt = value.dt + _td(days=1)
+                elif tname == "vCategory":
+                    value.cats.append(P.vText("Zed"))
+                elif tname == "vRecur":
+                    value["INTERVAL"] = [2]
+                elif tname == "vGeo":
+                    value.latitude = 1.25
+                else:
+                    res.skipped += 1
+                    continue
+                m.get("lists", {}).pop(a["name"], None)
+                if checks:
+                    res.probe("value_payload_mutated_in_place")
             elif op == "del_prop":
                 comp = B.objs.get(a["comp"])
                 m = B.model.get(a["comp"])
